@@ -18,10 +18,10 @@ type Prop struct {
 	// Parts: this property is decided by several sub-checks (ids with a
 	// lower-case suffix, e.g. C14we, C14wt), possibly in different worlds; the
 	// parent runs them all and merges their evidence. A parent has no World.
-	Parts            []string
-	LevelText        string
-	LevelNote        string
-	Technique        string
+	Parts     []string
+	LevelText string
+	LevelNote string
+	Technique string
 }
 
 var worlds = map[string]*World{}
